@@ -50,11 +50,16 @@ def gen(rng, tier):
         yield {'k': 'eig', 'M': [[str(x) for x in r] for r in M], 'nvals': rng.choice([None, None, 1, rng.randint(1, k), rng.randint(2, max(2, k // 2))]), 'style': style}
     for _ in range(n):      # implied timescales
         k = rng.randint(2, 5)
+        big = rng.random() < 0.12        # many states: driven rings have eigenvalues near the whole unit circle
+        if big:
+            k = rng.randint(17, 19)
         labs, akind = G.alphabet(rng, k=k)
         style = rng.choice(['sticky', 'sticky', 'alternating', 'cyclic', 'random'])
+        if big:
+            style = rng.choice(['cyclic', 'cyclic', 'random'])
         trajs = []
         for _ in range(rng.choice([1, 2])):
-            L = rng.randint(30, 200)
+            L = rng.randint(30, 200) * (6 if big else 1)
             if style == 'alternating':
                 t = [labs[(i + (rng.random() < 0.15)) % 2] for i in range(L)]
             elif style == 'cyclic':
@@ -70,7 +75,9 @@ def gen(rng, tier):
             continue
         lags = rng.sample(range(1, 6), rng.randint(1, 3))
         nts = rng.choice([None, None, 1, rng.randint(1, len(present) - 1)])
-        lumped = len(present) >= 3 and rng.random() < 0.25
+        if big:
+            nts = rng.choice([1, 2, 3, 5, 8, len(present) - 2, None])
+        lumped = len(present) >= 3 and rng.random() < 0.25 and not big
         case = {'k': 'its', 'trajs': trajs, 'lags': lags, 'nts': nts, 'style': style, 'lumped': lumped, 'alpha': akind}
         if lumped:
             f = {v: 40 + (i * 2) // len(present) for i, v in enumerate(present)}
@@ -102,6 +109,7 @@ def impl(case):
         for name, f in (('left', linalg.left_eigenvectors), ('right', linalg.right_eigenvectors)):
             vals, vecs = f(M, nvals=case['nvals'])
             out[name] = {'vals': [_c(v) for v in vals], 'vecs': [[_c(x) for x in v] for v in vecs]}
+            out[name]['all'] = [_c(v) for v in f(M)[0]]
         out['lvals'] = [_c(v) for v in linalg.left_eigenvalues(M, nvals=case['nvals'])]
         out['rvals'] = [_c(v) for v in linalg.right_eigenvalues(M, nvals=case['nvals'])]
         return out
@@ -175,6 +183,10 @@ def judge(case, ibc, answers):
                 if len(vals) != want or len(vecs) != want:
                     P('impl-vs-spec', '%s: %d eigenvalues / %d vectors returned, requested %d' % (name, len(vals), len(vecs), want))
                     continue
+                full = [_cq(v) for v in r[name]['all']]
+                if len(full) != n or any(abs(a[0] - b[0]) > tol or abs(a[1] - b[1]) > tol for a, b in zip(vals, full)):
+                    P('impl-vs-spec', '%s: the %d requested eigenvalues %s are not the %d largest of the full spectrum %s' % (
+                        name, want, [float(v[0]) for v in vals][:6], want, [float(v[0]) for v in full][:6]))
                 oks, desc, tr, sre, sim = _pairs_ok(T, name == 'left', vals, vecs, tol)
                 if not all(oks):
                     k = oks.index(False)
